@@ -103,6 +103,7 @@ type ContractSet struct {
 	Macros     map[string]SpecMacro
 	SpecSyms   map[string]specSig
 	Templates  map[string]*Contract // template name -> contract body
+	Axioms     []string             // named axioms about spec functions (each justified by a lemma obligation)
 	Families   []*Family
 	FieldFuncs map[string]string // pkg::Struct.field -> pkg::TypeContract
 	ModSets    map[string][]string
@@ -683,7 +684,16 @@ func (cs *ContractSet) addSpec(text string) {
 				body = ""
 			}
 		}
-		if m := formNameRe.FindStringSubmatch(body); m != nil {
+		if strings.HasPrefix(body, "(assert") {
+			// an axiom about a spec function:  ; axiom NAME for SYMBOL   (included with SYMBOL)
+			for _, ln := range strings.Split(f, "\n") {
+				fl := strings.Fields(ln)
+				if len(fl) >= 5 && fl[0] == ";" && fl[1] == "axiom" && fl[3] == "for" {
+					b.Names = append(b.Names, fl[4])
+					cs.Axioms = append(cs.Axioms, fl[2]+" (about "+fl[4]+")")
+				}
+			}
+		} else if m := formNameRe.FindStringSubmatch(body); m != nil {
 			b.Names = []string{m[2]}
 			if m[1] == "define-fun" {
 				args := sexprArgs(body)
